@@ -297,7 +297,7 @@ def digest_block (ft : Features) (state : W8 UInt32) (block : Bytes) : Option (W
   | _ => none
 
 /-! ## the engine and context of Impl.Sha2 over the dispatched block function
-    (`Impl.Sha2.Eng256.Engine.blocks` is the portable instance; Proofs/SimdSha256Ctx.lean) -/
+    (`Impl.Sha2.Eng256.Engine.blocks` is the portable instance; `blocks_eq`, `hash_with_eq_spec` of Proofs/SimdSha256Batch.lean) -/
 
 /-- `Engine::blocks` -/
 def Engine.blocks (ft : Features) (self : Eng256.Engine) (block : Bytes) : Option Eng256.Engine :=
